@@ -433,7 +433,10 @@ func (s *State) evalDelete(node ast.Node) object.Object {
 		}
 		return s.env.Delete(name)
 	case token.DOT:
-		idxE := node.(*ast.IndexExpression)
+		idxE, ok := node.(*ast.IndexExpression)
+		if !ok {
+			return s.NewError("delete not supported on " + node.Value().DebugString())
+		}
 		// index is the string value and not an identifier to resolve.
 		key := idxE.Index.Value()
 		if key.Type() != token.STRING && key.Type() != token.IDENT {
@@ -442,8 +445,11 @@ func (s *State) evalDelete(node ast.Node) object.Object {
 		index := object.String{Value: key.Literal()}
 		return s.deleteMapEntry(idxE, index)
 	case token.LBRACKET:
-		// Map/array [] index
-		idxE := node.(*ast.IndexExpression)
+		// Map/array [] index (but not array literal, which is also '[').
+		idxE, ok := node.(*ast.IndexExpression)
+		if !ok {
+			return s.NewError("delete not supported on " + node.Value().DebugString())
+		}
 		index := s.Eval(idxE.Index)
 		if index.Type() == object.ERROR {
 			return index
